@@ -99,6 +99,10 @@ pub struct MonState {
     pub threads_created: u64,
 }
 
+/// Observable progress of the request being served: every watchdog poll and every hook event bumps it. The driver's main
+/// thread uses it to tell a computation that is *spinning without reaching a poll or a hook* from one that is merely slow.
+pub static PROGRESS: std::sync::atomic::AtomicU64 = std::sync::atomic::AtomicU64::new(0);
+
 impl MonState {
     pub fn new() -> Self {
         Self {
@@ -180,6 +184,7 @@ impl MonState {
     }
 
     pub fn on_poll(&mut self) {
+        PROGRESS.fetch_add(1, std::sync::atomic::Ordering::Relaxed);
         let n = self.polls;
         self.polls += 1;
         if let Some(k) = self.stop_at {
@@ -284,6 +289,7 @@ impl MonState {
 
 impl Monitor for DriverMonitor {
     fn event(&mut self, event: Event) {
+        PROGRESS.fetch_add(1, std::sync::atomic::Ordering::Relaxed);
         let mut s = self.0.borrow_mut();
         match event {
             Event::Step { ip, gas, visits } => {
